@@ -1,54 +1,98 @@
-"""Rule bodies shared by C06.c, C12 and C13 (group aggregators, partition, expansion)."""
+"""Rule bodies shared by C06.c, C12, C13 and C18.g (group aggregators, partition, expansion, naming).
+
+All rules are stated over the semantic GroupModel (groupsx.py) read off the symx event log: they do not depend on the
+statement shapes, helper functions or local names of Table.aggregate / Table.window."""
 from __future__ import annotations
 
 import ast
 from typing import Dict, List, Optional, Tuple
 
 from ..aggfacts import SPEC, compare_with_spec, facts_of
-from ..astutil import Defs
-from ..core import AnalysisError, attr_chain, cshort, kwarg, short, walk_no_nested, walk_stmts
-from ..grouping import BUILTINS, GroupFacts, vector_reduction_facts
+from ..core import AnalysisError, FuncInfo, attr_chain, cshort, kwarg, short, walk_no_nested, walk_stmts
+from ..groupsx import BUILTINS, GroupModel, Output
+from ..symx import NONE, callee, const, elements, show, show_conds, subterms
 from .joinrules import _canon, determinism_of_function
+
+
+def vector_reduction_facts(prog, name: str) -> dict:
+    f = prog.func(f"vector.Vector.{name}")
+    return facts_of(f.node, "self._underlying")
 
 
 def fmt(facts: dict) -> str:
     return ", ".join(f"{k}={facts.get(k)!r}" for k in ("kind", "filter", "empty", "min_count", "divisor"))
 
 
-def aggregator_table(ctx, gf: GroupFacts, rule: str) -> None:
+def _one(gm: GroupModel, name: str) -> Tuple[Optional[Output], List[str]]:
+    outs = gm.builtin_outputs().get(f"{name}_over", [])
+    if not outs:
+        return None, []
+    if len(outs) > 1:
+        return outs[0], [f"{len(outs)} output columns are produced per {name}_over column"]
+    return outs[0], []
+
+
+def aggregator_table(ctx, gm: GroupModel, rule: str) -> None:
     """Each built-in aggregator: wiring param <-> loop <-> function facts <-> suffix, facts == spec."""
     for name in BUILTINS:
         p = f"{name}_over"
-        b = gf.blocks.get(p)
-        if b is None:
-            ctx.ob(rule, gf.f, f"{name}", False, "", gf.f.node, message=f"{gf.which}: no `if {p}:` block - the {name} aggregate is not computed")
+        o, problems = _one(gm, name)
+        if o is None:
+            ctx.ob(rule, gm.f, f"{name}", False, "", gm.f.node,
+                   message=f"{gm.which}: no output column is produced for `{p}` - the {name} aggregate is not computed")
             continue
-        problems = list(b.problems)
-        if not problems:
-            if b.suffix != name:
-                problems.append(f"the {p} block labels its output '{b.suffix}', must be '{name}'")
-            problems += [f"{name}: {x}" for x in compare_with_spec(name, b.facts)]
-            if b.facts.get("kind") == "?":
-                problems.append(f"aggregator not recognised: `{b.facts.get('detail')}`")
-            if not b.length_guard:
-                problems.append(f"no `len(col) != nrows` guard before column `{b.loop_var}` is aggregated")
-        ctx.ob(rule, gf.f, f"{name}", not problems, f"{gf.which}.{p}: {fmt(b.facts)}, suffix '{b.suffix}'", b.guard,
-               message=f"{gf.which}({p}=...): " + "; ".join(problems))
-    extra = set(gf.blocks) - {f"{n}_over" for n in BUILTINS}
+        problems = problems + list(o.problems)
+        nf = gm.name_kernel_facts(o)
+        suffix = nf[4] if nf else None
+        if not o.problems:
+            if suffix != name:
+                problems.append(f"the {p} output is labelled '{suffix}', must be '{name}'")
+            if not o.facts:
+                problems.append("aggregator function not found: " + "; ".join(o.flow_problems[:1]))
+            else:
+                problems += [f"{name}: {x}" for x in compare_with_spec(name, o.facts)]
+                if o.facts.get("kind") == "?":
+                    problems.append(f"aggregator not recognised: `{o.facts.get('detail')}`")
+            if not o.length_guard:
+                problems.append(f"no `len(col) != nrows` guard before a column of `{p}` is aggregated")
+            if o.extra:
+                problems.append(f"the {name} output is produced only under `{show_conds(o.extra, gm.it)[:70]}`")
+        ctx.ob(rule, gm.f, f"{name}", not problems, f"{gm.which}.{p}: {fmt(o.facts)}, suffix '{suffix}'", o.node,
+               message=f"{gm.which}({p}=...): " + "; ".join(problems))
+    extra = set(gm.builtin_outputs()) - {f"{n}_over" for n in BUILTINS}
     if extra:
-        ctx.info(f"{gf.which}: additional aggregator blocks {sorted(extra)} are not covered by the statement")
+        ctx.info(f"{gm.which}: additional aggregator outputs {sorted(extra)} are not covered by the statement")
+    unknown = [o for o in gm.outputs if o.kind == "?"]
+    for i, o in enumerate(unknown):
+        ctx.ob(rule, gm.f, f"unclassified-output-{i}", False, "", o.node,
+               message=f"{gm.which}: a result column is neither a key column, a built-in aggregate of one parameter nor an apply entry: "
+                       + "; ".join(o.problems))
 
 
-def siblings(ctx, agg: GroupFacts, win: GroupFacts, rule: str, with_vector: bool = True) -> None:
+def outputs(ctx, gm: GroupModel, rule: str) -> None:
+    """window: every aggregate output is its own column's group values expanded to the rows, named after its own column."""
+    for p, outs in gm.builtin_outputs().items():
+        o = outs[0]
+        problems = list(o.problems) + list(o.flow_problems)
+        nf = gm.name_kernel_facts(o)
+        if nf is not None and not (nf[0] and nf[1]):
+            problems.append("the output is not named after its own column")
+        if o.uniq is None:
+            problems.append("the output name does not pass through uniquify")
+        ctx.ob(rule, gm.f, p, not problems, f"{p}: output = group values of its own column expanded to the rows", o.node,
+               message=f"{gm.which}({p}=...): " + "; ".join(problems))
+
+
+def siblings(ctx, agg: GroupModel, win: GroupModel, rule: str, with_vector: bool = True) -> None:
     for name in BUILTINS:
-        a = agg.blocks.get(f"{name}_over")
-        w = win.blocks.get(f"{name}_over")
+        a, _ = _one(agg, name)
+        w, _ = _one(win, name)
         if a is None or w is None:
             continue
         fa = {k: v for k, v in a.facts.items() if k != "detail"}
         fw = {k: v for k, v in w.facts.items() if k != "detail"}
-        ctx.ob(rule, win.f, f"window~aggregate:{name}", fa == fw and fa.get("kind") != "?",
-               f"{name}: window and aggregate aggregators are fact-equal ({fmt(fa)})", w.guard,
+        ctx.ob(rule, win.f, f"window~aggregate:{name}", fa == fw and fa.get("kind") not in ("?", None),
+               f"{name}: window and aggregate aggregators are fact-equal ({fmt(fa)})", w.node,
                message=f"window's {name} aggregator differs from aggregate's: aggregate {fmt(fa)} vs window {fmt(fw)}"
                        + (f" [window: `{w.facts.get('detail')}`]" if fw.get("kind") == "?" else "")
                        + (f" [aggregate: `{a.facts.get('detail')}`]" if fa.get("kind") == "?" else "")
@@ -65,264 +109,189 @@ def siblings(ctx, agg: GroupFacts, win: GroupFacts, rule: str, with_vector: bool
                            + (f" [`{fv.get('detail')}`]" if fv.get("kind") == "?" else ""))
 
 
-def group_value_flow(ctx, gf: GroupFacts, rule: str) -> None:
-    """Each aggregate sees its group's values, unfiltered, in row order, exactly once per group."""
-    prog = ctx.prog
-    if gf.partition_error:
-        raise AnalysisError(gf.partition_error)
-    gi = gf.group_items[0] if gf.group_items else "?"
-    if gf.which == "aggregate":
-        h = gf.helper("aggregate_col")
-        if len(h.params) != 3:
-            ctx.ob(rule, h, "aggregate_col", False, "", h.node,
-                   message=f"aggregate_col takes {h.params}: extra parameters let a group's value bypass the aggregate function")
-            return
-        col, func, suffix = h.params
-        problems = []
-        body = [s for s in h.body if not (isinstance(s, ast.Expr) and isinstance(s.value, ast.Constant))]
-        d = Defs(h)
-        data = [n for n, lst in d.assigns.items() if any(v is not None and short(v) == f"{col}._underlying" for v, _, _ in lst)]
-        loops = [s for s in body if isinstance(s, ast.For)]
-        if len(loops) != 1 or short(loops[0].iter) != gi or not data:
-            problems.append(f"aggregate_col does not iterate `{gi}` over the column's storage")
-        else:
-            lp = loops[0]
-            rows = lp.target.elts[1].id if isinstance(lp.target, ast.Tuple) and len(lp.target.elts) == 2 else None
-            texts = [short(s, 200) for s in lp.body]
-            gather = f"[{data[0]}[_0] for _0 in {rows}]"
-            vals = [s.targets[0].id for s in lp.body if isinstance(s, ast.Assign) and cshort(s.value) == gather]
-            calls = [n for n in walk_no_nested(lp) if isinstance(n, ast.Call) and short(n.func) == func]
-            if not vals:
-                problems.append(f"the group's values are not gathered as `{gather}` (all rows of the group, in row order, None included)")
-            elif len(calls) != 1 or short(calls[0].args[0]) != vals[0] or len(calls[0].args) != 1:
-                problems.append(f"the aggregate function is not called exactly once per group on the gathered values "
-                                f"(`{[short(c) for c in calls]}`)")
-            if any(isinstance(s, ast.For) for s in lp.body):
-                problems.append("nested loop inside the per-group loop")
-            apps = [n for n in walk_no_nested(lp) if isinstance(n, ast.Call) and isinstance(n.func, ast.Attribute) and n.func.attr == "append"]
-            if len(apps) != 1:
-                problems.append("not exactly one result per group")
-            elif len(calls) == 1:
-                arg = apps[0].args[0] if len(apps[0].args) == 1 else None
-                if isinstance(arg, ast.Name):
-                    src = [s.value for s in lp.body if isinstance(s, ast.Assign) and len(s.targets) == 1
-                           and isinstance(s.targets[0], ast.Name) and s.targets[0].id == arg.id]
-                    arg = src[0] if len(src) == 1 else None
-                if arg is not calls[0]:
-                    problems.append(f"the value appended for a group (`{short(apps[0], 80)}`) is not the aggregate function's result itself "
-                                    f"(a pass-through of the group's own value would leak a None)")
-                if any(not isinstance(s, (ast.Assign, ast.Expr)) for s in lp.body):
-                    problems.append("the per-group loop body branches: some group can by-pass the aggregate function")
-        fin = [n for n in walk_no_nested(h.node) if isinstance(n, ast.Call) and short(n.func) == f"{gf.result_list}.append"]
-        if len(fin) != 1 or not (isinstance(fin[0].args[0], ast.Call) and short(fin[0].args[0].func) == "Vector"):
-            problems.append("aggregate_col does not append exactly one result column")
-        else:
-            v = fin[0].args[0]
-            nm = kwarg(v, "name")
-            nmv = d.resolve(nm) if isinstance(nm, ast.Name) else nm
-            if short(nmv) != f"uniquify(make_agg_name({col}, {suffix}))":
-                problems.append(f"the output column is named `{short(nmv)}`, expected uniquify(make_agg_name({col}, {suffix}))")
-            if kwarg(v, "dtype") is not None:
-                problems.append("the output column is given an explicit dtype")
-        ctx.ob(rule, h, "aggregate_col", not problems, "per group: gather rows in order -> func(vals) once -> one output value", h.node,
-               message="aggregate_col: " + "; ".join(problems))
-    else:
-        h = gf.helper("compute_group_values")
-        if len(h.params) != 2:
-            ctx.ob(rule, h, "compute_group_values", False, "", h.node,
-                   message=f"compute_group_values takes {h.params}: extra parameters (flags, caches) let a group's value bypass the "
-                           f"aggregate function fn(values of the group)")
-            return
-        col, fn = h.params
-        d = Defs(h)
-        problems = []
-        data = [n for n, lst in d.assigns.items() if any(v is not None and short(v) == f"{col}._underlying" for v, _, _ in lst)]
-        loops = [s for s in h.body if isinstance(s, ast.For)]
-        rets = [s for s in walk_stmts(h.body) if isinstance(s, ast.Return)]
-        if len(loops) != 1 or short(loops[0].iter) != gi or not data or len(rets) != 1:
-            problems.append(f"compute_group_values does not iterate `{gi}` over the column's own storage")
-        else:
-            lp = loops[0]
-            key, rows = (lp.target.elts[0].id, lp.target.elts[1].id) if isinstance(lp.target, ast.Tuple) else (None, None)
-            gather = f"[{data[0]}[_0] for _0 in {rows}]"
-            vals = [s.targets[0].id for s in lp.body if isinstance(s, ast.Assign) and cshort(s.value) == gather]
-            outv = short(rets[0].value)
-            st = [s for s in lp.body if isinstance(s, ast.Assign) and isinstance(s.targets[0], ast.Subscript)
-                  and short(s.targets[0].value) == outv]
-            if not vals:
-                problems.append(f"the group's values are not gathered as `{gather}`")
-            elif not (len(st) == 1 and short(st[0].targets[0].slice) == key and short(st[0].value) == f"{fn}({vals[0]})"):
-                problems.append(f"the group value is not stored as out[<group key>] = fn(<gathered values>)")
-            if len(lp.body) != 2:
-                problems.append("extra statements in the per-group loop (caching / filtering?)")
-            init = d.single(outv)
-            if not (isinstance(init, ast.Dict) and not init.keys):
-                problems.append("the group map does not start empty on every call")
-        if len([s for s in h.body if not isinstance(s, (ast.Assign, ast.For, ast.Return))]) > 0:
-            problems.append("compute_group_values has extra statements (memo / early return?)")
-        ctx.ob(rule, h, "compute_group_values", not problems, "group map: key -> fn(values of the group in row order), fresh per call",
-               h.node, message="compute_group_values: " + "; ".join(problems))
+def group_value_flow(ctx, gm: GroupModel, rule: str) -> None:
+    """Each aggregate sees its group's values, unfiltered, in row order, exactly once per group, and ITS result is the
+    group's value (no path around the aggregate function)."""
+    if gm.partition_error:
+        raise AnalysisError(gm.partition_error)
+    problems = []
+    node = gm.f.node
+    n = 0
+    for p, outs in gm.builtin_outputs().items():
+        for o in outs:
+            n += 1
+            for x in o.flow_problems:
+                problems.append(f"{p}: {x}")
+                node = o.node
+    if n == 0:
+        problems.append("no built-in aggregate output found")
+    role = "aggregate_col" if gm.which == "aggregate" else "compute_group_values"
+    seen = set()
+    problems = [x for x in problems if not (x in seen or seen.add(x))]
+    ctx.ob(rule, gm.f, role, not problems, f"{gm.which}: per group: gather rows in order -> fn(vals) once -> the group's value ({n} outputs)",
+           node, message=f"{gm.which}: " + "; ".join(problems[:4]))
 
 
-def apply_block(ctx, gf: GroupFacts, rule: str) -> None:
-    b = gf.apply_block
-    if b is None:
-        ctx.ob(rule, gf.f, "apply", False, "", gf.f.node, message=f"{gf.which}: apply block not found")
+def apply_block(ctx, gm: GroupModel, rule: str) -> None:
+    outs = gm.apply_outputs()
+    if not outs:
+        ctx.ob(rule, gm.f, "apply", False, "", gm.f.node, message=f"{gm.which}: no output column is produced for apply entries")
         return
     problems = []
-    if gf.partition_error:
-        raise AnalysisError(gf.partition_error)
-    gi = gf.group_items[0] if gf.group_items else "?"
-    loops = [s for s in b.body if isinstance(s, ast.For)]
-    if len(loops) != 1 or ".items()" not in short(loops[0].iter):
-        problems.append("not a loop over apply.items()")
-    else:
-        lp = loops[0]
-        tg = [n.id for n in ast.walk(lp.target) if isinstance(n, ast.Name)]
-        if len(tg) != 3:
-            problems.append("loop target is not name, (col, fn)")
-        else:
-            nm, col, fn = tg
-            d_res = [s for s in lp.body if isinstance(s, ast.Assign) and short(s.value) == f"self._resolve_column({col})"]
-            if not d_res:
-                problems.append("the column is not resolved through _resolve_column")
-            else:
-                rc = d_res[0].targets[0].id
-                if not any(isinstance(s, ast.If) and short(s.test) in (f"len({rc}) != {n}" for n in gf.nrows) for s in lp.body):
-                    problems.append("no length guard on the apply column")
-                data = [s.targets[0].id for s in lp.body if isinstance(s, ast.Assign) and short(s.value) == f"{rc}._underlying"]
-                if not data:
-                    problems.append("the apply column's storage is not read")
-                else:
-                    txt = " ".join(cshort(s) for s in lp.body)
-                    gather_call = f"{fn}([{data[0]}[_"
-                    inline = gather_call in txt
-                    two_step = any(isinstance(s, ast.For) and short(s.iter) == gi for s in lp.body)
-                    if not (inline or two_step):
-                        problems.append("the user function does not receive the gathered group values")
-                    if two_step:
-                        il = [s for s in lp.body if isinstance(s, ast.For) and short(s.iter) == gi][0]
-                        rows = il.target.elts[1].id
-                        g = f"[{data[0]}[_0] for _0 in {rows}]"
-                        vals = [s.targets[0].id for s in il.body if isinstance(s, ast.Assign) and cshort(s.value) == g]
-                        calls = [n for n in walk_no_nested(il) if isinstance(n, ast.Call) and short(n.func) == fn]
-                        if not vals or len(calls) != 1 or short(calls[0].args[0]) != vals[0]:
-                            problems.append(f"the user function must be called once per group on `{g}` (None included, row order)")
-                    if inline:
-                        comps = [n for n in walk_no_nested(lp) if isinstance(n, ast.DictComp)]
-                        if not (comps and short(comps[0].generators[0].iter) == gi and not comps[0].generators[0].ifs):
-                            problems.append(f"group values for apply are not computed for every entry of `{gi}`")
-                # name
-                apps = [n for n in walk_no_nested(lp) if isinstance(n, ast.Call) and short(n.func) == f"{gf.result_list}.append"]
-                if len(apps) != 1:
-                    problems.append("not exactly one output column per apply entry")
-                else:
-                    v = apps[0].args[0]
-                    n_e = kwarg(v, "name") if isinstance(v, ast.Call) else None
-                    if n_e is None or short(n_e) != f"uniquify({nm})":
-                        problems.append(f"apply output is named `{short(n_e) if n_e is not None else '?'}`, expected uniquify({nm})")
-    ctx.ob(rule, gf.f, "apply", not problems, f"{gf.which}: apply receives each group's values (None included, row order) once", b,
-           message=f"{gf.which}(apply=...): " + "; ".join(problems))
+    if gm.partition_error:
+        raise AnalysisError(gm.partition_error)
+    if len(outs) != 1:
+        problems.append(f"{len(outs)} output columns per apply entry")
+    o = outs[0]
+    it = gm.it
+    problems += o.problems + o.flow_problems
+    if not o.length_guard:
+        problems.append("no length guard on the apply column")
+    if o.extra:
+        problems.append(f"apply outputs are produced only under `{show_conds(o.extra, it)[:60]}`")
+    if o.name_base != ("key", ("param", "apply"), o.loop):
+        problems.append(f"apply output is named `{gm.sh(o.name, 50)}`, expected uniquify(<the entry's name>)")
+    ctx.ob(rule, gm.f, "apply", not problems, f"{gm.which}: apply receives each group's values (None included, row order) once", o.node,
+           message=f"{gm.which}(apply=...): " + "; ".join(problems))
 
 
-def single_exit(ctx, gf: GroupFacts, rule: str) -> None:
+def single_exit(ctx, gm: GroupModel, rule: str) -> None:
     """aggregate / window have exactly one return: the table of all result columns (no special case for empty input)."""
-    rets = [s for s in walk_stmts(gf.f.body) if isinstance(s, ast.Return)]
-    ok = len(rets) == 1 and rets[0] is gf.body[-1] and short(rets[0].value) == f"Table({gf.result_list})"
-    extra = [r for r in rets if r is not gf.body[-1]]
-    ctx.ob(rule, gf.f, "single-exit", ok, f"{gf.which}: the only return is Table(<all result columns>)", extra[0] if extra else gf.f.node,
-           message=f"{gf.which}: " + (f"`{short(extra[0], 60)}` (line {extra[0].lineno}) returns early: key columns / aggregate columns are not "
-                                      f"produced for that input (e.g. a zero-row table must still give the key and aggregate columns)"
-                                      if extra else "the final return is not Table(<result columns>)"))
+    extra = [e for e in gm.returns if e is not gm.final]
+    ok = not extra
+    ctx.ob(rule, gm.f, "single-exit", ok, f"{gm.which}: the only return is Table(<all result columns>)", extra[0].node if extra else gm.f.node,
+           message=f"{gm.which}: " + (f"`return {gm.sh(extra[0].term, 50)}` (line {extra[0].node.lineno}) returns early: key columns / aggregate "
+                                      f"columns are not produced for that input (e.g. a zero-row table must still give the key and "
+                                      f"aggregate columns)" if extra else ""))
 
 
-def key_columns(ctx, gf: GroupFacts, rule: str) -> None:
-    f = gf.f
-    over = gf.over
+def key_columns(ctx, gm: GroupModel, rule: str) -> None:
+    f, it = gm.f, gm.it
     problems = []
-    if gf.partition_error and gf.which == "aggregate":
-        raise AnalysisError(gf.partition_error)
-    gi = gf.group_items[0] if gf.group_items else "?"
-    loops = [s for s in gf.body if isinstance(s, ast.For) and (short(s.iter) in (over, f"enumerate({over})"))
-             and any(isinstance(n, ast.Call) and short(n.func) == f"{gf.result_list}.append" for n in walk_no_nested(s))]
-    if len(loops) != 1:
-        problems.append("key-column loop not found")
+    if gm.partition_error and gm.which == "aggregate":
+        raise AnalysisError(gm.partition_error)
+    keys = gm.key_outputs()
+    node = f.node
+    if len(keys) != 1:
+        problems.append(f"expected one key output column per key, found {len(keys)} per key")
     else:
-        lp = loops[0]
-        # precedes every aggregator block
-        pos = gf.body.index(lp)
-        firsts = [gf.body.index(b.guard) for b in gf.blocks.values()] + ([gf.body.index(gf.apply_block)] if gf.apply_block is not None else [])
-        if firsts and pos > min(firsts):
+        o = keys[0]
+        node = o.node
+        problems += o.problems
+        if gm.outputs.index(o) != 0:
             problems.append("key columns are appended after an aggregate column")
-        app = [n for n in walk_no_nested(lp) if isinstance(n, ast.Call) and short(n.func) == f"{gf.result_list}.append"][0]
-        v = app.args[0]
-        if gf.which == "aggregate":
-            tg = [n.id for n in ast.walk(lp.target) if isinstance(n, ast.Name)]
-            idx, col = (tg + ["?", "?"])[:2]
-            d = Defs(f)
-            dat = v.args[0] if isinstance(v, ast.Call) and v.args else None
-            dv = None
-            for s in lp.body:
-                if isinstance(s, ast.Assign) and isinstance(dat, ast.Name) and short(s.targets[0]) == dat.id:
-                    dv = s.value
-            if dv is None or cshort(dv) != f"[_0[{idx}] for _0, _1 in {gi}]":
-                problems.append(f"key column {idx} holds `{short(dv) if dv is not None else short(dat) if dat is not None else '?'}`, "
-                                f"expected [key[{idx}] for key, _ in {gi}] (one value per group, in group order)")
+        if o.extra:
+            problems.append(f"key columns are produced only under `{show_conds(o.extra, it)[:60]}`")
+        col = o.col
+        OVER = gm.over_list()
+        lp = it.loops[o.loop]
+        src = lp.domain if (lp.domain is not None and lp.domain[0] != "tuple") else lp.iter
+        if OVER is None or src != OVER:
+            problems.append("key columns are not produced by one pass over the resolved key columns")
+        data = o.data
+        if gm.which == "aggregate":
+            ok = False
+            if data is not None and data[0] == "obj":
+                evs = elements(it, data)
+                if len(evs) == 1 and not it.objs[data[1]].init:
+                    e = evs[0]
+                    lps = [x for x in e.loops if x not in o.ev.loops]
+                    v = e.value if e.kind == "elem" else (e.term[2][0] if e.term[2] else None)
+                    if len(lps) == 1 and gm.group_loop(lps[0]) and v is not None and v[0] == "sub" and v[1] in gm.group_key(lps[0]) \
+                            and v[2] == ("idx", o.loop) and not e.conds[len(o.ev.conds):]:
+                        ok = True
+            if not ok:
+                problems.append(f"key column k holds `{gm.sh(data, 70)}`, expected [key[k] for key, _ in groups] (one value per group, in "
+                                f"group order)")
         else:
-            col = lp.target.id if isinstance(lp.target, ast.Name) else "?"
-            dat = v.args[0] if isinstance(v, ast.Call) and v.args else None
-            if dat is None or short(dat) not in (f"list({col})", f"list({col}._underlying)", f"{col}._underlying"):
-                problems.append(f"key column is `{short(dat) if dat is not None else '?'}`, expected the key column unchanged (list({col}))")
-        nm = kwarg(v, "name") if isinstance(v, ast.Call) else None
-        if nm is None or short(nm) != f"uniquify({col}._name or 'key')":
-            problems.append(f"key column is named `{short(nm) if nm is not None else '?'}`, expected uniquify({col}._name or 'key')")
-    ctx.ob(rule, f, "key-columns", not problems, f"{gf.which}: key columns first, one per key, named uniquify(name or 'key')",
-           loops[0] if loops else f.node, message=f"{gf.which}: " + "; ".join(problems))
+            okd = False
+            if data is not None:
+                d = data
+                if d[0] == "obj" and it.objs[d[1]].kind == "list" and isinstance(it.objs[d[1]].node, ast.Call) and len(it.objs[d[1]].init) == 1:
+                    d = it.objs[d[1]].init[0]
+                elif d[0] == "call" and d[1] in (("name", "list"), ("name", "tuple")) and len(d[2]) == 1:
+                    d = d[2][0]
+                okd = d in (col, ("attr", col, "_underlying"))
+            if not okd:
+                problems.append(f"key column is `{gm.sh(data, 60)}`, expected the key column unchanged (list(col))")
+        want = ("bool", "or", (("attr", col, "_name"), const("key")))
+        if o.name_base != want or o.uniq is None:
+            problems.append(f"key column is named `{gm.sh(o.name, 60)}`, expected uniquify(col._name or 'key')")
+    ctx.ob(rule, f, "key-columns", not problems, f"{gm.which}: key columns first, one per key, named uniquify(name or 'key')",
+           node, message=f"{gm.which}: " + "; ".join(problems))
 
 
-def key_length_guards(ctx, gf: GroupFacts, rule: str) -> None:
-    over = gf.over
+def key_length_guards(ctx, gm: GroupModel, rule: str) -> None:
+    it = gm.it
+    OVER = gm.over_list()
     ok = False
-    for s in gf.body:
-        if isinstance(s, ast.For) and short(s.iter) in (f"enumerate({over})", over):
-            for x in s.body:
-                if isinstance(x, ast.If) and any(short(x.test) == f"len(col) != {n}" for n in gf.nrows) and any(isinstance(b, ast.Raise) for b in x.body):
-                    ok = True
-    ctx.ob(rule, gf.f, "key-lengths", ok, f"{gf.which}: every key column is length-checked against the table", gf.f.node,
-           message=f"{gf.which}: partition keys are not length-checked (a key vector not stored in the table could be shorter)")
-    # keys resolved through _resolve_column
-    res = [s for s in gf.body if isinstance(s, ast.Assign) and short(s.targets[0]) == over
-           and short(s.value) == f"[self._resolve_column(col) for col in {over}]"]
-    ctx.ob(rule, gf.f, "key-resolution", bool(res), f"{gf.which}: keys resolved through _resolve_column", gf.f.node,
-           message=f"{gf.which}: partition keys are not resolved through _resolve_column (names -> stored-name lookup)")
+    if OVER is not None:
+        for lp in it.loops.values():
+            src = lp.domain if (lp.domain is not None and lp.domain[0] != "tuple") else lp.iter
+            if src == OVER and not lp.parents and lp.kind == "for":
+                if gm.length_guarded(("elem", OVER, lp.id), 10 ** 9, lp.id):
+                    first_use = min((e.seq for e in it.events if gm.part_loop is not None and gm.part_loop in e.loops), default=10 ** 9)
+                    if gm.length_guarded(("elem", OVER, lp.id), first_use, lp.id):
+                        ok = True
+    ctx.ob(rule, gm.f, "key-lengths", ok, f"{gm.which}: every key column is length-checked against the table", gm.f.node,
+           message=f"{gm.which}: partition keys are not length-checked before the rows are partitioned (a key vector not stored in the "
+                   f"table could be shorter)")
+    ctx.ob(rule, gm.f, "key-resolution", OVER is not None, f"{gm.which}: keys resolved through _resolve_column", gm.f.node,
+           message=f"{gm.which}: partition keys are not resolved through _resolve_column (names -> stored-name lookup)")
 
 
-def expansion(ctx, gf: GroupFacts, rule: str) -> None:
-    h = gf.helper("expand_to_rows")
-    gm = h.params[0]
-    rets = [s for s in walk_stmts(h.body) if isinstance(s, ast.Return)]
-    rk = gf.row_keys[0] if gf.row_keys else "?"
-    want = [f"[{gm}[{rk}[_0]] for _0 in range({n})]" for n in gf.nrows]
-    ok = len(rets) == 1 and cshort(rets[0].value) in want and len([s for s in h.body if not (isinstance(s, ast.Expr))]) == 1
-    ctx.ob(rule, h, "expand_to_rows", ok, f"row i receives group_map[row_keys[i]] for i in range(nrows)", h.node,
-           message=f"expand_to_rows returns `{short(rets[0].value) if rets else '?'}`, expected {want[0] if want else '?'}: every row, in row "
-                   f"order, gets the value of the group it was partitioned into")
+def expansion(ctx, gm: GroupModel, rule: str) -> None:
+    """window: row i receives the value of the group it was partitioned into, for every row, in row order."""
+    problems = []
+    node = gm.f.node
+    for o in gm.outputs:
+        if o.kind in ("builtin", "apply"):
+            for x in o.flow_problems:
+                if x.startswith(("row values", "the output is not filled", "the output column holds")):
+                    problems.append(f"{o.param}: {x}")
+                    node = o.node
+    seen = set()
+    problems = [x for x in problems if not (x in seen or seen.add(x))]
+    ctx.ob(rule, gm.f, "expand_to_rows", not problems, "row i receives group_map[row_keys[i]] for every row i in row order", node,
+           message="window: " + "; ".join(problems[:3]))
 
 
-def naming_kernel(ctx, agg: GroupFacts, win: GroupFacts, rule: str) -> None:
-    ua, uw = agg.helper("uniquify"), win.helper("uniquify")
-    ca, cw = _canon(ua.node.body), _canon(uw.node.body)
-    ctx.ob(rule, uw, "uniquify-siblings", ca == cw, "window.uniquify is alpha-equal to aggregate.uniquify", uw.node,
-           message=f"window's uniquify differs from aggregate's:\n--- aggregate\n{ca}\n--- window\n{cw}")
-    for gf in (agg, win):
-        u = gf.helper("uniquify")
+def naming_kernel(ctx, agg: GroupModel, win: GroupModel, rule: str) -> None:
+    us = {}
+    for gm in (agg, win):
+        uniqs = {o.uniq for o in gm.outputs if o.uniq is not None}
+        missing = [o for o in gm.outputs if o.uniq is None]
+        ok = len(uniqs) == 1 and not missing
+        ctx.ob(rule, gm.f, "one-uniquifier", ok, f"{gm.which}: every output name passes through one uniquifier", 
+               missing[0].node if missing else gm.f.node,
+               message=f"{gm.which}: " + (f"{len(missing)} output name(s) do not pass through the uniquifier" if missing else
+                                          f"{len(uniqs)} different uniquifiers are used (names unique only per uniquifier)"))
+        if len(uniqs) >= 1:
+            c = gm.it.closures[sorted(uniqs)[0][1]]
+            us[gm.which] = c
+    if "aggregate" in us and "window" in us:
+        ua, uw = us["aggregate"], us["window"]
+        ca, cw = _canon(ua.node.body), _canon(uw.node.body)
+        fw = uw.finfo or win.f
+        ctx.ob(rule, fw, "uniquify-siblings", ca == cw, "window.uniquify is alpha-equal to aggregate.uniquify", uw.node,
+               message=f"window's uniquify differs from aggregate's:\n--- aggregate\n{ca}\n--- window\n{cw}")
+    for gm in (agg, win):
+        c = us.get(gm.which)
+        if c is None:
+            continue
+        u = c.finfo
+        if u is None:
+            raise AnalysisError(f"{gm.which}: the uniquifier closure is not an indexed function")
         problems = uniquify_problems(u)
-        ctx.ob(rule, u, "uniquify-shape", not problems, f"{gf.which}.uniquify returns an unused name and records it", u.node,
-               message=f"{gf.which}.uniquify: " + "; ".join(problems))
-    ma, sw = agg.helper("make_agg_name"), win.helper("sanitize")
-    fa, fw = _name_facts(ma), _name_facts(sw)
-    ctx.ob(rule, sw, "agg-name-siblings", fa == fw and fa is not None, f"output names: {fa}", sw.node,
-           message=f"window names its outputs differently from aggregate: aggregate {fa} vs window {fw}")
+        ctx.ob(rule, u, "uniquify-shape", not problems, f"{gm.which}.uniquify returns an unused name and records it", u.node,
+               message=f"{gm.which}.uniquify: " + "; ".join(problems))
+    fa = {n: (agg.name_kernel_facts(_one(agg, n)[0]) if _one(agg, n)[0] is not None else None) for n in BUILTINS}
+    fw_ = {n: (win.name_kernel_facts(_one(win, n)[0]) if _one(win, n)[0] is not None else None) for n in BUILTINS}
+    good = all(fa[n] == fw_[n] == (True, True, True, True, n) for n in BUILTINS)
+    bad = [n for n in BUILTINS if not (fa[n] == fw_[n] == (True, True, True, True, n))]
+    ctx.ob(rule, win.f, "agg-name-siblings", good, "output names: f'{sanitise(col._name or \'col\') or \'col\'}_{suffix}' in both", win.f.node,
+           message=f"aggregate/window output naming kernel deviates for {bad}: (own-column base, sanitised, fallback 'col', f'{{s}}_{{suffix}}', "
+                   f"suffix) aggregate {[fa[n] for n in bad]} vs window {[fw_[n] for n in bad]}")
 
 
 def uniquify_problems(u) -> List[str]:
@@ -356,17 +325,3 @@ def uniquify_problems(u) -> List[str]:
     return probs
 
 
-def _name_facts(h) -> Optional[tuple]:
-    """(base expr, sanitiser, fallback, format) of make_agg_name / sanitize."""
-    col, suffix = h.params
-    from ..aggfacts import expand, _inline
-    body = [s for s in h.body if not (isinstance(s, ast.Expr) and isinstance(s.value, ast.Constant))]
-    rets = [s for s in body if isinstance(s, ast.Return)]
-    if len(rets) != 1:
-        return None
-    txt = " | ".join(short(s, 120) for s in body)
-    base_ok = f"{col}._name or 'col'" in txt
-    san_ok = "_sanitize_user_name(" in txt
-    fallback_ok = ("or 'col'" in txt.split("_sanitize_user_name(")[-1]) or ("is None" in txt and "= 'col'" in txt)
-    fmt_ok = short(rets[0].value).replace("'", '"') == 'f"{s}_{' + suffix + '}"'.replace("'", '"') or short(rets[0].value) == f"f'{{s}}_{{{suffix}}}'"
-    return (base_ok, san_ok, fallback_ok, fmt_ok)
